@@ -469,7 +469,19 @@ type lfAn struct {
 	units   map[string]*lfUnit
 	order   []string
 	rows    []lfRow
+	chanOps []lfChanOp
 	callsTo map[string][]lfCallSite // callee -> sites
+	// early exits of a straight-line region: `if c { ...; x.Unlock(); return ... }` between x.Lock()
+	// and the region's x.Unlock(): the Unlock statements recognised as such, and their returns
+	earlyUnlock map[ast.Stmt]bool
+	earlyReturn map[ast.Stmt]bool
+}
+
+// one send / receive on a channel that is a configured shared field, with the locks held
+type lfChanOp struct {
+	field, fn, kind string
+	locks           []lfLockMode
+	pos             string
 }
 
 type lfCallSite struct {
@@ -932,6 +944,33 @@ func (a *lfAn) emit(u *lfUnit, f lfField, base string, write bool, init bool, he
 	})
 }
 
+// chanOp records a send or receive on a channel expression that is a configured shared field
+func (a *lfAn) chanOp(u *lfUnit, ch ast.Expr, kind string, held []lfHeld) {
+	se, ok := ch.(*ast.SelectorExpr)
+	if !ok {
+		return
+	}
+	hits, base, _ := a.matchSelector(u, se)
+	for _, f := range hits {
+		var locks []lfLockMode
+		seen := map[string]int{}
+		for _, h := range held {
+			if (!h.ctx || h.inferred) && h.base != base {
+				continue
+			}
+			if i, ok := seen[h.name]; ok {
+				locks[i].excl = locks[i].excl || h.excl
+				continue
+			}
+			seen[h.name] = len(locks)
+			locks = append(locks, lfLockMode{h.name, h.excl})
+		}
+		p := a.w.fset.Position(ch.Pos())
+		a.chanOps = append(a.chanOps, lfChanOp{field: f.strct + "." + strings.Join(f.path, "."), fn: u.short, kind: kind,
+			locks: locks, pos: fmt.Sprintf("%s:%d", p.Filename, p.Line)})
+	}
+}
+
 // expr walks an expression. mode: 'r' read, 'w' write (assignment target / inc-dec operand).
 func (a *lfAn) expr(u *lfUnit, e ast.Expr, mode byte, held []lfHeld) {
 	switch x := e.(type) {
@@ -1013,6 +1052,9 @@ func (a *lfAn) expr(u *lfUnit, e ast.Expr, mode byte, held []lfHeld) {
 					return
 				}
 			}
+		}
+		if x.Op == token.ARROW {
+			a.chanOp(u, x.X, "recv", held)
 		}
 		a.expr(u, x.X, 'r', held)
 	case *ast.BinaryExpr:
@@ -1212,6 +1254,14 @@ func (a *lfAn) deferUnlock(u *lfUnit, s ast.Stmt) (lfHeld, bool) {
 		if h, unlock, ok := a.lockCall(u, ds.Call); ok && unlock {
 			return h, true
 		}
+		// defer func() { x.Unlock() }()
+		if fl, ok := ds.Call.Fun.(*ast.FuncLit); ok && len(ds.Call.Args) == 0 && len(fl.Body.List) == 1 {
+			if es, ok := fl.Body.List[0].(*ast.ExprStmt); ok {
+				if h, unlock, ok := a.lockCall(u, es.X); ok && unlock {
+					return h, true
+				}
+			}
+		}
 	}
 	return lfHeld{}, false
 }
@@ -1238,6 +1288,9 @@ func (a *lfAn) escapes(list []ast.Stmt) (token.Pos, string) {
 		case *ast.FuncLit:
 			return
 		case *ast.ReturnStmt:
+			if a.earlyReturn[s] {
+				return // preceded by the region's own Unlock (markEarlyExits)
+			}
 			pos, what = s.Pos(), "return"
 			return
 		case *ast.BranchStmt:
@@ -1287,6 +1340,44 @@ func (a *lfAn) escapes(list []ast.Stmt) (token.Pos, string) {
 	return pos, what
 }
 
+// markEarlyExits finds, inside the straight-line region of lock h, the statement lists that end in
+// `h.Unlock(); return ...` (an early exit that releases the lock itself) and records both statements.
+// Lists inside function literals are not looked at.
+func (a *lfAn) markEarlyExits(u *lfUnit, region []ast.Stmt, h lfHeld) {
+	if a.earlyUnlock == nil {
+		a.earlyUnlock, a.earlyReturn = map[ast.Stmt]bool{}, map[ast.Stmt]bool{}
+	}
+	check := func(list []ast.Stmt) {
+		n := len(list)
+		if n < 2 {
+			return
+		}
+		ret, ok := list[n-1].(*ast.ReturnStmt)
+		if !ok {
+			return
+		}
+		if h2, un, ok := a.stmtLock(u, list[n-2]); ok && un && h2.expr == h.expr && h2.excl == h.excl {
+			a.earlyUnlock[list[n-2]] = true
+			a.earlyReturn[ret] = true
+		}
+	}
+	for _, s := range region {
+		ast.Inspect(s, func(n ast.Node) bool {
+			switch x := n.(type) {
+			case *ast.FuncLit:
+				return false
+			case *ast.BlockStmt:
+				check(x.List)
+			case *ast.CaseClause:
+				check(x.Body)
+			case *ast.CommClause:
+				check(x.Body)
+			}
+			return true
+		})
+	}
+}
+
 func lfClone(h []lfHeld, extra ...lfHeld) []lfHeld {
 	out := make([]lfHeld, 0, len(h)+len(extra))
 	out = append(out, h...)
@@ -1304,6 +1395,18 @@ func (a *lfAn) block(u *lfUnit, list []ast.Stmt, held []lfHeld, nested bool) []l
 		s := list[i]
 		if h, unlock, ok := a.stmtLock(u, s); ok {
 			if unlock {
+				if a.earlyUnlock[s] {
+					// early exit of an enclosing straight-line region: the lock is released here, the
+					// `return` that follows runs without it
+					var rest []lfHeld
+					for _, o := range held {
+						if o.expr != h.expr || o.ctx {
+							rest = append(rest, o)
+						}
+					}
+					held = rest
+					continue
+				}
 				a.w.errf(s.Pos(), "%s without a matching Lock earlier in the same block", lfPrint(a.w.fset, s))
 				continue
 			}
@@ -1341,6 +1444,7 @@ func (a *lfAn) block(u *lfUnit, list []ast.Stmt, held []lfHeld, nested bool) []l
 				a.w.errf(s.Pos(), "%s has neither an adjacent deferred unlock nor an unlock in the same block", lfPrint(a.w.fset, s))
 				continue
 			}
+			a.markEarlyExits(u, list[i+1:j], h)
 			if p, what := a.escapes(list[i+1 : j]); what != "" {
 				a.w.errf(p, "%s inside the straight-line region of %s", what, h.expr)
 			}
@@ -1381,6 +1485,7 @@ func (a *lfAn) stmt(u *lfUnit, s ast.Stmt, held []lfHeld) {
 	case *ast.ExprStmt:
 		a.expr(u, x.X, 'r', held)
 	case *ast.SendStmt:
+		a.chanOp(u, x.Chan, "send", held)
 		a.expr(u, x.Chan, 'r', held)
 		a.expr(u, x.Value, 'r', held)
 	case *ast.IncDecStmt:
@@ -1818,6 +1923,20 @@ func lockFactsLean(root string) (string, error) {
 		}
 		fmt.Fprintf(&sb, "  ⟨%s, %s, %v, [%s], %v, %s⟩%s\n", strconv.Quote(r.field), strconv.Quote(r.fn), r.write,
 			strings.Join(ls, ", "), r.init, strconv.Quote(r.pos), sep)
+	}
+	sb.WriteString("]\n\n")
+	sb.WriteString("/-- sends and receives on channels that are shared fields: (field, function, send|recv, locks held, position) -/\n")
+	sb.WriteString("def chanOps : List (String × String × String × List (String × Bool) × String) := [\n")
+	for i, c := range a.chanOps {
+		var ls []string
+		for _, l := range c.locks {
+			ls = append(ls, fmt.Sprintf("(%s, %v)", strconv.Quote(l.name), l.excl))
+		}
+		sep := ","
+		if i == len(a.chanOps)-1 {
+			sep = ""
+		}
+		fmt.Fprintf(&sb, "  (%s, %s, %s, [%s], %s)%s\n", strconv.Quote(c.field), strconv.Quote(c.fn), strconv.Quote(c.kind), strings.Join(ls, ", "), strconv.Quote(c.pos), sep)
 	}
 	sb.WriteString("]\n\n")
 	var es [][2]string
